@@ -1227,7 +1227,11 @@ impl<const STREAMING: bool> GroupValues for GroupValuesColumn<STREAMING> {
                     .iter_mut()
                     .map(|v| v.take_n(n))
                     .collect::<Vec<_>>();
-                let mut next_new_list_offset = 0;
+                // The compacted lists are collected into a new vector: `retain`
+                // does not visit the buckets in list offset order, so writing
+                // them back in place could overwrite a list not yet read
+                let mut new_group_index_lists =
+                    Vec::with_capacity(self.group_index_lists.len());
 
                 self.map.retain(|(_exist_hash, group_idx_view)| {
                     // In non-streaming case, we need to check if the `group index view`
@@ -1235,8 +1239,6 @@ impl<const STREAMING: bool> GroupValues for GroupValuesColumn<STREAMING> {
                     if !STREAMING && group_idx_view.is_non_inlined() {
                         // Non-inlined case
                         // We take `group_index_list` from `old_group_index_lists`
-
-                        // list_offset is incrementally
                         self.emit_group_index_list_buffer.clear();
                         let list_offset = group_idx_view.value() as usize;
                         for group_index in self.group_index_lists[list_offset].iter() {
@@ -1258,15 +1260,16 @@ impl<const STREAMING: bool> GroupValues for GroupValuesColumn<STREAMING> {
                                 GroupIndexView::new_inlined(*group_index as u64);
                             true
                         } else {
-                            let group_index_list =
-                                &mut self.group_index_lists[next_new_list_offset];
+                            // Reuse the allocation of this bucket's old list
+                            let mut group_index_list =
+                                mem::take(&mut self.group_index_lists[list_offset]);
                             group_index_list.clear();
                             group_index_list
                                 .extend(self.emit_group_index_list_buffer.iter());
                             *group_idx_view = GroupIndexView::new_non_inlined(
-                                next_new_list_offset as u64,
+                                new_group_index_lists.len() as u64,
                             );
-                            next_new_list_offset += 1;
+                            new_group_index_lists.push(group_index_list);
                             true
                         }
                     } else {
@@ -1288,7 +1291,7 @@ impl<const STREAMING: bool> GroupValues for GroupValuesColumn<STREAMING> {
                 });
 
                 if !STREAMING {
-                    self.group_index_lists.truncate(next_new_list_offset);
+                    self.group_index_lists = new_group_index_lists;
                 }
 
                 output
